@@ -97,11 +97,11 @@ theorem open_check_first :
 
 /-! ### Closed checks (C20, C12) -/
 
-/-- exported Tx methods that dereference `tx.db` without first detecting a finished transaction.
+/-- exported Tx methods that dereference `tx.db` without first calling `checkTxIsClosed`:
 `Commit`/`Rollback` test `tx.db == nil` themselves (the extractor's path-insensitive rule does not
-see that); the three `Find*OnDisk` helpers are exported by accident and do panic on a finished
-transaction (finding D-ONDISK-CLOSED). -/
-def closedExceptions : List String := ["Commit", "FindLeafOnDisk", "FindOnDisk", "FindTxIDOnDisk", "Rollback"]
+see that). The three `Find*OnDisk` helpers used to be on this list and panicked on a finished
+transaction (finding D-PANIC-ONDISK, fixed in /repo 3a8ee2e). -/
+def closedExceptions : List String := ["Commit", "Rollback"]
 
 theorem closed_checks_ok :
     (closedChecks.filter (fun p => !p.2)).map (·.1) = closedExceptions := by
